@@ -18,11 +18,13 @@ complete without matching (ImageFormatError), every other call delivers its chun
 import sys, os, io, json, struct, random, hashlib
 import gen_C06
 import gen_C06_code
+import gen_insp
 import logging
 logging.disable(logging.CRITICAL)   # the inspectors log parse problems; not part of the observations
 
 ID = 'C06'
-GEN = [('Gen/C06_Wrapper.v', gen_C06.generate), ('Gen/C06_Code.v', gen_C06_code.generate)]
+GEN = [('Gen/C06_Wrapper.v', gen_C06.generate), ('Gen/C06_Code.v', gen_C06_code.generate),
+       ('Gen/Insp_Consts.v', gen_insp.generate)]     # constants of the concrete inspector models (reference for the abort chunk)
 EQUIV_FILES = ['Proofs/C06_Equiv.v']
 EXTRACT = 'Extract/C06_x.v'
 
@@ -88,9 +90,26 @@ def make_data(spec):
 
 # ---------------------------------------------------------------- instrumented sources / inspectors
 
-class FSrc(io.BytesIO):
-    def __init__(self, data):
-        super().__init__(data); self.log = []; self.pos = 0; self.pulls = 0
+class Buf:
+    """how a source hands its chunks out: 'bytes' | 'ba' (a fresh bytearray) | 'reuse' (ONE bytearray, refilled before
+    every hand-out) | 'mv' (a memoryview over one re-used buffer).  The log keeps an immutable snapshot of every chunk."""
+    buf = 'bytes'; shared = None
+    def conv(self, c):
+        k = self.buf
+        if k == 'bytes': return c
+        if k == 'ba': return bytearray(c)
+        if k == 'reuse':
+            if self.shared is None: self.shared = bytearray()
+            self.shared[:] = c
+            return self.shared
+        if self.shared is None: self.shared = bytearray(1 << 19)
+        if len(c) > len(self.shared): return memoryview(bytearray(c))
+        self.shared[:len(c)] = c
+        return memoryview(self.shared)[:len(c)]
+
+class FSrc(io.BytesIO, Buf):
+    def __init__(self, data, buf='bytes'):
+        super().__init__(data); self.log = []; self.pos = 0; self.pulls = 0; self.buf = buf
     force_empty = False   # the next read returns b'' although data is left (a transient empty read)
     def read(self, size=-1):
         self.pulls += 1
@@ -99,12 +118,12 @@ class FSrc(io.BytesIO):
         except Exception as e:
             e._c06_src = '<source>'; raise
         self.log.append(c); self.pos += len(c)
-        return c
+        return self.conv(c)
 
-class LSrc:
+class LSrc(Buf):
     """an iterator without close()"""
-    def __init__(self, chunks):
-        self.it = iter(chunks); self.log = []; self.pulls = 0
+    def __init__(self, chunks, buf='bytes'):
+        self.it = iter(chunks); self.log = []; self.pulls = 0; self.buf = buf
     def __iter__(self): return self
     def __next__(self):
         self.pulls += 1
@@ -113,7 +132,7 @@ class LSrc:
         except StopIteration as e:
             e._c06_src = '<source>'; raise
         self.log.append(c)
-        return c
+        return self.conv(c)
 
 class GSrc(LSrc):
     """generator-like: close() exhausts it"""
@@ -212,10 +231,11 @@ def run_session(c):
     data = make_data(c['data'])
     kind = c['kind']
     faults = {(f[0], f[1]): (f[2], f[3]) for f in c.get('faults', [])}
-    if kind == 'f': src = FSrc(data)
+    buf = c.get('buf', 'bytes')
+    if kind == 'f': src = FSrc(data, buf)
     else:
         chunks = split_lens(data, c['lens'])
-        src = GSrc(chunks) if kind == 'g' else LSrc(chunks)
+        src = GSrc(chunks, buf) if kind == 'g' else LSrc(chunks, buf)
     expected = c.get('expected')
     w = fi.InspectWrapper(src, expected_format=expected, allowed_formats=c.get('allowed'))
     reorder(fi, w, c.get('oseed', 0))
@@ -232,6 +252,8 @@ def run_session(c):
         except Exception: ref = None
     whole = data if kind == 'f' else b''.join(chunks)
     delivered = bytearray(); clean = True
+    received = []; snaps = []        # the chunk OBJECTS the reader got, and what they contained when it got them
+    first_exc = None
     for k, op in enumerate(c['ops']):
         pulls0, nlog0 = src.pulls, len(src.log)
         exc = None; chunk = None
@@ -256,9 +278,15 @@ def run_session(c):
                 except Exception: ref = None
             continue
         # after k reads without exception the reader holds exactly the first bytes of the source
+        if exc is not None and first_exc is None: first_exc = (k, canon(exc))
+        if exc is None:
+            received.append(chunk); snaps.append(bytes(chunk))
+            # a chunk handed to the reader stays what it was (unless the SOURCE re-uses its buffer: kinds reuse / mv)
+            if buf == 'ba' and any(bytes(received[j]) != snaps[j] for j in range(len(received))):
+                viol.append('op %d: a chunk already delivered to the reader was modified afterwards' % k)
         if exc is not None: clean = False
         elif clean:
-            delivered += chunk
+            delivered += snaps[-1]
             if bytes(delivered) != whole[:len(delivered)]:
                 viol.append('op %d: the bytes delivered so far are not the first %d bytes of the source' % (k, len(delivered)))
         if src.pulls - pulls0 != 1:
@@ -311,6 +339,20 @@ def run_session(c):
             elif exc is not None and type(exc).__name__ == 'StopIteration' and getattr(exc, '_c06_src', None) == '<source>':
                 try: ref.finish()
                 except Exception: ref = None
+    # the reader joins what it kept only now
+    if buf in ('bytes', 'ba') and not any(o == 1 for o in c['ops']):
+        got_all = b''.join(bytes(x) for x in received)
+        if got_all != b''.join(snaps) or (clean and got_all != whole[:len(got_all)]):
+            viol.append("b''.join(chunks received) differs from the source content")
+    # fault-free run with an expected format: the stream is cut at the chunk the VERIFIED inspector model says
+    # (coq/Model/Insp_*.v through the Insp_x driver; the real inspector may be the thing that is broken)
+    ref_ = c.get('ref')
+    if ref_ is not None:
+        want = None if ref_['abort'] is None else (ref_['abort'], ref_['exn'])
+        if first_exc != want:
+            viol.append('expected_format=%r: the inspector model %s, but the reader %s' % (
+                expected, 'never fails / mismatches on these chunks' if want is None else 'first fails (%s) at chunk %d' % (want[1], want[0]),
+                'got every chunk' if first_exc is None else 'got %s at read %d' % (first_exc[1], first_exc[0])))
     # a failed (non-expected) inspector is never fed again
     for name, st in recs.items():
         if name == expected: continue
@@ -359,6 +401,73 @@ def run_detect(c):
     unmod = any(st['unmodelled'] for st in recs.values())
     _CACHE[_key(c)] = ([i.NAME for i in o2], [recs[i.NAME]['events'] for i in o2], unmod)
     return '%s@%d|%s|%s ## %s' % (res, src.pos, src.closed, state_str(fi, w, order, recs, by_key=True), 'OK' if not viol else 'VIOL:' + viol[0])
+
+# ---------------------------------------------------------------- reference: the concrete inspector MODEL (C01/C03)
+_INSP = {'tried': False, 'exe': None}
+def insp_driver():
+    if not _INSP['tried']:
+        _INSP['tried'] = True
+        try:
+            import runner
+            class P: ID = 'C06insp'; EXTRACT = 'Extract/Insp_x.v'
+            with runner.Lock('coq.lock'):
+                runner.ensure_makefile()
+                exe, err = runner.build_driver(P)
+            if err: print('C06: inspector-model driver not available (%s); decision-offset cases skipped' % err[:200], flush=True)
+            _INSP['exe'] = exe
+        except Exception as e:
+            print('C06: inspector-model driver not available (%r); decision-offset cases skipped' % e, flush=True)
+    return _INSP['exe']
+
+def model_abort(cases):
+    """for each (fmt, data, sizes): (index of the first chunk at which the model inspector raises / is complete without
+    matching, exception class) or (None, None); None when the driver is missing"""
+    exe = insp_driver()
+    if exe is None: return None
+    import runner
+    outs = runner.run_model(exe, [' '.join(runner.enc_arg(a) for a in ['insp', f, d, list(sz)]) for f, d, sz in cases])
+    res = []
+    for o in outs:
+        recs = o.split('|#')[0].split('|')[:-1]          # the last record is the one after finish()
+        r = (None, None)
+        for j, rec in enumerate(recs):
+            f = rec.split(';')
+            if len(f) < 3: r = 'bad'; break
+            if f[0] != '-': r = (j, f[0] if f[0] in EXN_NAMES else 'OtherError'); break
+            if f[2] == 'True' and f[1] == 'False': r = (j, 'ImageFormatError'); break
+        res.append(r)
+    return res
+
+DECISION = {'vmdk': [64, 512], 'qcow2': [512], 'qed': [512], 'vhd': [512], 'vdi': [512], 'gpt': [512], 'luks': [592],
+            'iso': [32 * 1024 + 2 * 1024], 'vhdx': [256 * 1024]}
+def decision_cases(rng, tier):
+    """fault-free reads with an expected format whose running totals land on the inspector's decision offsets and +-1"""
+    out = []
+    for fmt, offs in DECISION.items():
+        for D in offs:
+            tmpls = ['zeros', 'rand', fmt, 'qcow2' if fmt != 'qcow2' else 'vhd']
+            if D >= 200000: tmpls = ['zeros', fmt] if tier == 'quick' else tmpls
+            for t in tmpls:
+                for delta in (-1, 0, 1):
+                    for shape in range(3 if D < 200000 else 1):
+                        first = D + delta
+                        if shape == 0: sizes, n = [first], first                       # the stream ends exactly there
+                        elif shape == 1: sizes, n = [first, 1, 64, 64], first + 129
+                        else:
+                            a = rng.randrange(1, first)
+                            sizes, n = [a, first - a, 64], first + 64
+                        spec = {'t': t, 'n': n, 'seed': 2 * rng.randrange(20) + (1 if t == 'rand' else 0)}
+                        out.append({'op': 'sess', 'kind': 'f', 'data': spec, 'expected': fmt, 'allowed': None, 'faults': [], 'oseed': rng.randrange(1000),
+                                    'lens': [], 'ops': [10 + x for x in sizes], 'buf': 'bytes', '_sizes': sizes})
+    refs = model_abort([(c['expected'], make_data(c['data']), c['_sizes']) for c in out])
+    if refs is None: return []
+    res = []
+    for c, r in zip(out, refs):
+        del c['_sizes']
+        if r == 'bad': continue
+        c['ref'] = {'abort': r[0], 'exn': r[1]}
+        res.append(c)
+    return res
 
 def impl(c):
     return run_detect(c) if c['op'] == 'detect' else run_session(c)
@@ -419,7 +528,8 @@ def stream(rng, big=None):
 def session(rng, spec, cs, kind, expected, allowed, faults):
     n = spec['n']
     nchunks = (n + cs - 1) // cs
-    c = {'op': 'sess', 'kind': kind, 'data': spec, 'expected': expected, 'allowed': allowed, 'faults': faults, 'oseed': rng.randrange(1000)}
+    c = {'op': 'sess', 'kind': kind, 'data': spec, 'expected': expected, 'allowed': allowed, 'faults': faults, 'oseed': rng.randrange(1000),
+         'buf': rng.choice(['bytes', 'bytes', 'bytes', 'ba', 'reuse', 'mv'])}
     style = rng.random()
     if kind == 'f':
         if style < 0.6:
@@ -469,6 +579,17 @@ def gen_cases(rng, tier):
     # boundary: empty source, no faults
     for kind in kinds:
         yield session(rng, {'t': 'zeros', 'n': 0, 'seed': 0}, 64, kind, None, None, [])
+    # decision offsets, against the verified inspector models
+    yield from decision_cases(rng, tier)
+    # every way a source can hand its chunks out x a stream of the expected format / another one / no expectation
+    for rep in range(1 if tier == 'quick' else 6):
+        for buf in ('bytes', 'ba', 'reuse', 'mv'):
+            for kind in kinds:
+                for e, t in (('qcow2', 'qcow2'), ('qcow2', 'zeros'), (None, 'qcow2'), ('vmdk', 'vmdk'), ('luks', 'luks'), ('gpt', 'gpt'), ('vhd', 'rand')):
+                    spec = {'t': t, 'n': rng.choice([1024, 1500, 2048]), 'seed': rng.randrange(50)}
+                    c = session(rng, spec, rng.choice([100, 128, 200, 256]), kind, e, None, [])
+                    c['buf'] = buf
+                    yield c
     # an empty read in the MIDDLE of the stream (read(0), a transient empty read of the source, an empty chunk of an
     # iterator) followed by more data: with every expectation, no faults (then with a fault elsewhere)
     for rep in range(2 if tier == 'quick' else 12):
